@@ -512,6 +512,9 @@ func (w *World) serverAcceptLoop() {
 }
 
 func (w *World) acceptLoop1() {
+	if w.Spec.Server.NoAccept {
+		return // an application that has stopped accepting: the server's backlog fills up
+	}
 	for {
 		var conn net.Conn
 		var req *model.Request
